@@ -8,8 +8,10 @@ import (
 	"bytes"
 	"errors"
 	"fmt"
+	"hash/fnv"
 	"strconv"
 	"strings"
+	"sync"
 	"time"
 
 	repocodec "github.com/cocosip/go-dicom-codecs/codec"
@@ -56,7 +58,7 @@ func evString(ev []bool) string {
 // ---------- MEL ----------
 
 func melSuite(c *Ctx) {
-	n := c.N(300, 5000)
+	n := c.N(200, 5000)
 	rng := c.Rng.Fork()
 	type cs struct {
 		ev   []bool
@@ -289,6 +291,14 @@ func uvlcSuite(c *Ctx) {
 
 // ---------- CxtVLC ----------
 
+var vlcEncPool = sync.Pool{New: func() interface{} { return htj2k.NewVLCEncoder() }}
+
+func getVLCEnc() *htj2k.VLCEncoder {
+	e := vlcEncPool.Get().(*htj2k.VLCEncoder)
+	e.Reset()
+	return e
+}
+
 func vlcSuite(c *Ctx) {
 	for t := 0; t < 2; t++ {
 		tbl := &htj2k.VLCLookupTable0
@@ -333,7 +343,8 @@ func vlcSuite(c *Ctx) {
 		k := vcs[i]
 		key := fmt.Sprintf("%d %d %d %d %d", k.first, k.cq, k.rho, k.uoff, k.emb)
 		c.R.Case("vlc_emb:"+key, k.rho != 0, "vlc.emb")
-		enc := htj2k.NewVLCEncoder()
+		enc := getVLCEnc()
+		defer vlcEncPool.Put(enc)
 		l, ek, err := enc.EncodeQuadVLCByEMB(uint8(k.cq), uint8(k.rho), uint8(k.uoff), uint8(k.emb), k.first == 1)
 		impl := "none"
 		if err == nil {
@@ -384,7 +395,8 @@ func vlcSuite(c *Ctx) {
 		k := ccs[i]
 		key := fmt.Sprintf("%d %d %d %d %d %d", k.first, k.cq, k.rho, k.uoff, k.ek, k.e1)
 		c.R.Case("vlc_cxt:"+key, k.rho != 0, "vlc.cxt")
-		enc := htj2k.NewVLCEncoder()
+		enc := getVLCEnc()
+		defer vlcEncPool.Put(enc)
 		l, err := enc.EncodeCxtVLCWithLen(uint8(k.cq), uint8(k.rho), uint8(k.uoff), uint8(k.ek), uint8(k.e1), k.first == 1)
 		impl := "none"
 		if err == nil {
@@ -430,7 +442,8 @@ func vlcSuite(c *Ctx) {
 // flushOnce re-encodes the quad on a fresh encoder and returns its flushed bytes (Flush appends to
 // the encoder's buffer, so it must not be called twice on the same object).
 func flushOnce(first, cq, rho, uoff, emb int) string {
-	enc := htj2k.NewVLCEncoder()
+	enc := getVLCEnc()
+	defer vlcEncPool.Put(enc)
 	_, _, _ = enc.EncodeQuadVLCByEMB(uint8(cq), uint8(rho), uint8(uoff), uint8(emb), first == 1)
 	return Hex(enc.Flush())
 }
@@ -628,7 +641,7 @@ func qcdSuite(c *Ctx) {
 // ---------- HT code-blocks: Scup locator and cleanup coder round trip ----------
 
 func blockSuite(c *Ctx) {
-	n := c.N(400, 6000)
+	n := c.N(160, 6000)
 	rng := c.Rng.Fork()
 	type bc struct {
 		W, H, Kmax int
@@ -672,7 +685,9 @@ func blockSuite(c *Ctx) {
 		for _, v := range k.Data {
 			nz = nz || v != 0
 		}
-		c.R.Case(fmt.Sprintf("block:%d:%d:%d:%s", k.W, k.H, k.Kmax, Ints32(k.Data)), nz, fmt.Sprintf("block.kmax.%d", (k.Kmax+9)/10*10))
+		hh := fnv.New64a()
+		_, _ = hh.Write([]byte(Ints32(k.Data)))
+		c.R.Case(fmt.Sprintf("block:%d:%d:%d:%x", k.W, k.H, k.Kmax, hh.Sum64()), nz, fmt.Sprintf("block.kmax.%d", (k.Kmax+9)/10*10))
 		enc := htj2k.NewHTEncoder(k.W, k.H)
 		enc.SetKMax(k.Kmax)
 		var blk []byte
